@@ -73,6 +73,21 @@ func zz17VarBytes(name string, lens []int) []byte {
 	return zzsym.Bytes(name, lens[zzsym.Choose(name+".len", len(lens))])
 }
 
+// zz17Lens: the lengths explored for variable-length key fields: 0..LMAX (spec parameter) plus the given extras.
+func zz17Lens(extra ...int) []int {
+	var out []int
+	max := zzsym.Param("LMAX")
+	for i := 0; i <= max; i++ {
+		out = append(out, i)
+	}
+	for _, e := range extra {
+		if e > max {
+			out = append(out, e)
+		}
+	}
+	return out
+}
+
 func zz17Pair(kinds int) (int, int) {
 	i := zzsym.Choose("kindA", kinds)
 	j := i + zzsym.Choose("kindB", kinds-i)
